@@ -372,10 +372,149 @@ fn c03_core(ctx: &mut Ctx) {
 
 pub fn c02(ctx: &mut Ctx) {
     c02_core(ctx);
+    c02_lookalikes(ctx);
     crate::props_sizes::c02(ctx);
 }
 
 pub fn c03(ctx: &mut Ctx) {
     c03_core(ctx);
+    c03_nested(ctx);
     crate::props_sizes::c03(ctx);
+}
+
+/// Templates with a hole: contexts in which an operand expression is certainly evaluated.
+fn contexts() -> Vec<(&'static str, fn(Value) -> Value)> {
+    vec![
+        ("top", |h| h),
+        ("eager-arg", |h| json!({"merge": [h, 1]})),
+        ("eager-second", |h| json!({"cat": ["x", h]})),
+        ("not", |h| json!({"!": [h]})),
+        ("if-cond", |h| json!({"if": [h, 1, 2]})),
+        ("if-branch", |h| json!({"if": [true, h, 2]})),
+        ("if-else", |h| json!({"if": [false, 1, h]})),
+        ("and-last", |h| json!({"and": [1, h]})),
+        ("or-first", |h| json!({"or": [h, 1]})),
+        ("map-expr", |h| json!({"map": [[1, 2], h]})),
+        ("map-coll", |h| json!({"map": [h, 1]})),
+        ("filter-pred", |h| json!({"filter": [[1, 2], h]})),
+        ("reduce-expr", |h| json!({"reduce": [[1, 2, 3], h, 0]})),
+        ("reduce-init", |h| json!({"reduce": [[1], 1, h]})),
+        ("reduce-plus-current", |h| json!({"reduce": [[1, 2, 3], {"+": [h, {"var": "accumulator"}]}, 0]})),
+        ("reduce-plus-acc", |h| json!({"reduce": [[1, 2, 3], {"+": [{"var": "current"}, h]}, 0]})),
+        ("all-pred", |h| json!({"all": [[1, 2], h]})),
+        ("some-elem", |h| json!({"some": [[h], true]})),
+        ("none-coll", |h| json!({"none": [h, true]})),
+        ("var-key", |h| json!({"var": [h]})),
+        ("var-default", |h| json!({"var": ["nope", h]})),
+        ("missing-key", |h| json!({"missing": [h]})),
+        ("cmp-middle", |h| json!({"<": [0, h, 9]})),
+        ("substr-len", |h| json!({"substr": ["hello", 0, h]})),
+        ("nested-3", |h| json!({"+": [{"*": [{"-": [h]}, 1]}, 1]})),
+        ("log", |h| json!({"log": h})),
+    ]
+}
+
+/// Arity is enforced wherever an operation is evaluated, not only at the top of a rule:
+/// every operator with an undocumented operand count (and a few well-formed look-alikes) in
+/// every evaluation context.
+pub fn c03_nested(ctx: &mut Ctx) {
+    let data = json!({"a": 1, "current": 5, "accumulator": 6, "arr": [1, 2]});
+    let ops = all_ops();
+    let mut idx = 0u64;
+    for (cname, mk) in contexts() {
+        for op in ops.iter() {
+            idx += 1;
+            if !ctx.mine(idx) {
+                continue;
+            }
+            for n in 0..=5usize {
+                let documented = refsem::arity_ok(op, n) == Some(true);
+                let mut args = valid_tuple(op, n);
+                // the canonical spellings inside folds
+                if *op == "var" && n >= 1 {
+                    args[0] = json!(if cname.contains("acc") { "accumulator" } else { "current" });
+                }
+                let inner = json!({ *op: args });
+                let rule = mk(inner);
+                let (obs, mo) = ctx.check("c03.model", &rule, &data);
+                if !documented {
+                    ctx.mon("c03.arity").observed += 1;
+                    // the model tells whether this position is evaluated; if so the call must fail
+                    if let MOut::Err = mo {
+                        ctx.mon("c03.arity").judged += 1;
+                        if !matches!(obs.out, Outcome::Err(_)) {
+                            ctx.violation("c03.arity", &format!("accepted-undocumented-count:{}:{}:in-{}", op, n, cname), &rule, &data, json!("an error"), obs.out.brief(), "an undocumented operand count was accepted inside another operation");
+                        }
+                    }
+                }
+                ctx.cell(&format!("nested-arity:{}", cname));
+            }
+            ctx.mark_nontrivial_key(&format!("c03:nested:{}:{}", cname, op));
+        }
+    }
+}
+
+/// Multi-key objects that contain an operator key whose operands WOULD work (a "rule
+/// look-alike") in every operand position of every operator: they are literals there too.
+pub fn c02_lookalikes(ctx: &mut Ctx) {
+    let data = json!({"arr": [1, 2, 3], "n": 5, "s": "héllo", "o": {"k": 1}, "t": true});
+    let looks: Vec<Value> = vec![
+        json!({"var": "arr", "note": "x"}), json!({"var": "n", "": 0}), json!({"var": "s", "var ": 1}), json!({"+": [1, 2], "comment": "sum"}), json!({"if": [true, "then", "else"], "comment": "x"}),
+        json!({"?:": [true, 1, 2], "if": [true, 3, 4]}), json!({"merge": [[1], [2]], "z": 0}), json!({"log": "LEAK-look", "b": 1}), json!({"cat": ["a", "b"], "and": [1, 2]}), json!({"map": [[1], 1], "filter": [[1], 1]}),
+        json!({"missing": ["zz"], "a": 1}), json!({"all": [[1], true], "x": 1}), json!({"reduce": [[1], 1, 0], "k": 2}), json!({"/": [1], "k": 2}),
+    ];
+    let ops = all_ops();
+    let mut idx = 0u64;
+    for op in ops.iter() {
+        for n in 1..=3usize {
+            if refsem::arity_ok(op, n) != Some(true) {
+                continue;
+            }
+            for pos in 0..n {
+                for l in looks.iter() {
+                    idx += 1;
+                    if !ctx.mine(idx) {
+                        continue;
+                    }
+                    let mut args = valid_tuple(op, n);
+                    args[pos] = l.clone();
+                    let rule = json!({ *op: args });
+                    let (obs, _) = ctx.check("c02.model", &rule, &data);
+                    if obs.logs.iter().any(|x| x == "\"LEAK-look\"") {
+                        ctx.violation("c02.identity", &format!("lookalike-executed:{}:{}", op, pos), &rule, &data, json!("no output"), json!(obs.logs), "a multi-key object with an operator key was executed in operand position");
+                    }
+                    ctx.cell("lookalike-operand");
+                }
+            }
+        }
+    }
+    // bare (bracket-less) look-alike
+    for op in ops.iter() {
+        for l in looks.iter() {
+            idx += 1;
+            if ctx.mine(idx) {
+                ctx.check("c02.model", &json!({ *op: l }), &data);
+            }
+        }
+    }
+    // programmatically built rules nested deeper than JSON text can be (Rust API callers):
+    // dispatch must not change with depth
+    for d in [100usize, 126, 127, 128, 129, 130, 160, 200, 256, 300] {
+        idx += 1;
+        if !ctx.mine(idx) {
+            continue;
+        }
+        for (op, leaf) in [("!", json!({"var": "t"})), ("!!", json!({"var": "n"})), ("+", json!({"var": "n"})), ("cat", json!({"var": "s"})), ("merge", json!({"var": "n"})), ("-", json!({"var": "n"})), ("max", json!({"var": "n"})), ("log", json!({"var": "n"})), ("var", json!("n")), ("if", json!({"var": "n"})), ("and", json!({"var": "s"})), ("or", json!({"var": "n"}))] {
+            for bracketed in [true, false] {
+                let mut rule = leaf.clone();
+                for _ in 0..d {
+                    rule = if bracketed { json!({ op: [rule] }) } else { json!({ op: rule }) };
+                }
+                // `var` chains look their own result up again: keep them short-circuiting on data
+                ctx.check("c02.model", &rule, &data);
+            }
+        }
+        ctx.cell("deep-programmatic-rule");
+        ctx.mark_nontrivial_key(&format!("c02:depth:{}", d));
+    }
 }
